@@ -169,9 +169,14 @@ func (ctx *Ctx) GenVC(fc *FuncContract) (res *FuncResult) {
 	// Exit obligations: on the merged exit state, or - for contracts with an appends clause or
 	// the splitreturns flag - separately for every return site, which keeps the heap terms free
 	// of the if-then-else that merging introduces (names get an @k suffix).
-	exitObls := func(exit *State, results []Term, sfx string) string {
+	exitObls := func(exit *State, results []Term, sfx string, blk *ssa.BasicBlock) string {
 		penv := fr.baseEnv(exit)
 		penv.old = fr.entry
+		if blk != nil {
+			// per return site (splitreturns): the locals live at that return are in scope
+			penv.lookup = func(nm string) (SpecVal, bool) { return fr.lookupLocal(nm, blk, exit, nil) }
+			penv.lookupAddr = fr.lookupLocalAddr
+		}
 		bindResults(penv, fn.Signature, results)
 		// ghost assignments attached to the function exit
 		for _, gs := range fc.Sets {
@@ -199,6 +204,7 @@ func (ctx *Ctx) GenVC(fc *FuncContract) (res *FuncResult) {
 			reach := And(append([]Term{exit.reach}, penv.assumes...)...)
 			penv.assumes = nil
 			bound := ""
+			fullReach := reach
 			if bc, ok := fc.Bounded[en.Label]; ok {
 				benv := fr.baseEnv(fr.entry)
 				benv.old = fr.entry
@@ -210,7 +216,7 @@ func (ctx *Ctx) GenVC(fc *FuncContract) (res *FuncResult) {
 				bound = bc.Src
 			}
 			vc.addObl(&Obligation{Name: "ensures:" + en.Label + sfx, Kind: "ensures", Reach: reach, Cond: t, Taint: exit.taint,
-				Pos: ctx.prog.Fset.Position(fn.Pos()), Descr: en.Src, Spec: en.E, Bound: bound})
+				Pos: ctx.prog.Fset.Position(fn.Pos()), Descr: en.Src, Spec: en.E, Bound: bound, FullReach: fullReach})
 		}
 		if fc.Appends != nil {
 			ctx.appendsObligations(vc, fr, fc, exit, penv, sfx)
@@ -223,14 +229,14 @@ func (ctx *Ctx) GenVC(fc *FuncContract) (res *FuncResult) {
 	}
 	if (fc.Appends != nil || fc.SplitReturns) && len(fr.rets) >= 2 && len(fr.rets) <= 8 {
 		for k, rs := range fr.rets {
-			if msg := exitObls(rs.st.clone(), rs.vals, fmt.Sprintf("@%d", k+1)); msg != "" {
+			if msg := exitObls(rs.st.clone(), rs.vals, fmt.Sprintf("@%d", k+1), rs.blk); msg != "" {
 				res.Err = msg
 				return res
 			}
 		}
 		// the merged state still carries the ghost assignments for the cover check and replay
 		_ = penv
-	} else if msg := exitObls(exit, results, ""); msg != "" {
+	} else if msg := exitObls(exit, results, "", nil); msg != "" {
 		res.Err = msg
 		return res
 	}
